@@ -23,6 +23,9 @@ type Profile struct {
 	Weights     map[string]int
 	AdvanceMs   []int64
 	Steps       int
+	RefreshDl   []int64 // deadlines of Refresh callers (ms), nil = none
+	ParkPct     int     // percentage of lookups held between the known-check and the flight
+	StructPct   int     // percentage of constructions that declare some names through a tagged struct
 	Readers     int // concurrent reader goroutines (bursts of handle calls racing the driver's steps)
 }
 
@@ -68,6 +71,17 @@ func RandomHistory(e *Env, r *rand.Rand, p Profile) {
 			}
 			first.CacheDoc = append(first.CacheDoc, d)
 		}
+	}
+	if p.StructPct > 0 && r.Intn(100) < p.StructPct && first.Bad == "" && len(decl) > 0 {
+		// some (or all) names come from a struct; a name may be declared both ways
+		k := r.Intn(len(decl) + 1)
+		first.StructNames = append([]string(nil), decl[k:]...)
+		first.Declared = append([]string(nil), decl[:k]...)
+		if r.Intn(2) == 0 {
+			first.StructNames = append(first.StructNames, decl[0])
+			first.Declared = append(first.Declared, decl[len(decl)-1])
+		}
+		first.StructNames = dedupe(first.StructNames) // duplicate tags inside one struct are the struct's business (C20)
 	}
 	e.Apply(first)
 	if p.Readers > 0 {
@@ -143,12 +157,21 @@ func RandomHistory(e *Env, r *rand.Rand, p Profile) {
 			n := pickS(r, p.Names)
 			e.Apply(Step{Do: "svc", Name: n, Ver: r.Intn(4)})
 		case "advance":
-			e.Apply(Step{Do: "advance", Ms: pickI(r, p.AdvanceMs)})
+			e.mu.Lock()
+			np := len(e.parked)
+			e.mu.Unlock()
+			if np == 0 { // code steps take no time: the clock does not move while a caller is held at the gate
+				e.Apply(Step{Do: "advance", Ms: pickI(r, p.AdvanceMs)})
+			}
 		case "refresh":
 			c := pickS(r, p.Callers)
 			if !busy[c] && e.theStore() != nil {
 				busy[c] = true
-				e.Apply(Step{Do: "refresh", Caller: c})
+				st := Step{Do: "refresh", Caller: c}
+				if len(p.RefreshDl) > 0 {
+					st.Deadline = pickI(r, p.RefreshDl)
+				}
+				e.Apply(st)
 			}
 		case "tick":
 			if p.Auto && e.theStore() != nil && len(pend) == 0 {
@@ -162,7 +185,18 @@ func RandomHistory(e *Env, r *rand.Rand, p Profile) {
 			c := pickS(r, p.Callers)
 			if !busy[c] && e.theStore() != nil {
 				busy[c] = true
-				e.Apply(Step{Do: "lookup", Caller: c, Name: pickS(r, p.Names), Deadline: pickI(r, p.LookupDl)})
+				e.Apply(Step{Do: "lookup", Caller: c, Name: pickS(r, p.Names), Deadline: pickI(r, p.LookupDl), Park: r.Intn(100) < p.ParkPct})
+			}
+		case "unpark":
+			e.mu.Lock()
+			var ps []string
+			for k := range e.parked {
+				ps = append(ps, k)
+			}
+			e.mu.Unlock()
+			sortStrings(ps)
+			if len(ps) > 0 {
+				e.Apply(Step{Do: "unpark", Caller: pickS(r, ps)})
 			}
 		case "cancel":
 			c := pickS(r, p.Callers)
@@ -183,6 +217,19 @@ func RandomHistory(e *Env, r *rand.Rand, p Profile) {
 		case "cachefault":
 			e.Apply(Step{Do: "cachefault", WFail: r.Intn(2) == 0})
 		}
+	}
+	for {
+		e.mu.Lock()
+		var ps []string
+		for k := range e.parked {
+			ps = append(ps, k)
+		}
+		e.mu.Unlock()
+		if len(ps) == 0 {
+			break
+		}
+		sortStrings(ps)
+		e.Apply(Step{Do: "unpark", Caller: ps[0]})
 	}
 	synctest.Wait() // the last bursts of the readers
 }
